@@ -15,7 +15,7 @@ import time
 
 VERIF = os.path.dirname(os.path.dirname(os.path.abspath(__file__)))
 REPO = os.environ.get("VERIF_REPO", "/repo")
-CACHE = os.path.join(VERIF, ".cache")
+CACHE = os.path.join(VERIF, ".cache", "scratch" if os.environ.get("VERIF_REPO") else "main")
 DRIVER = os.path.join(VERIF, "driver", "target", "debug", "zfacts")
 
 AVX512_TF = "+avx512f,+avx512bw,+avx512vl,+avx512vnni,+vpclmulqdq,+avx2,+bmi2,+bmi1,+pclmulqdq,+sse4.2,+avx512dq,+avx512cd"
